@@ -9,6 +9,8 @@
 //!               O Some(node) : Option<ity>   N None : Option<ity>
 //!               L Either::<ity, AnyView>::Left(node)   R Either::<AnyView, ity>::Right(node)
 //!         | 'Z'                              the unit view `()`
+//!         | 'I' hex ';' hex ';' node* '<'    Island::new(component, view).with_props(props)
+//!         | 'J' node* '<'                    IslandChildren::new(view)
 //!   ity  := S String | s &'static str | a Arc<str> | w Cow<'static,str> | o Oco<'static,str> | c char | i i32
 //!         | q Option<String> | v Vec<String> | * AnyView (anything, built recursively)
 //!   attr := 'A' hex ';' hex ';'              .attr(name, String)
@@ -61,6 +63,8 @@ pub enum Node {
     Elem { tag: String, attrs: Vec<Attr>, kids: Vec<Node> },
     Cont { kind: char, ity: char, kids: Vec<Node> },
     Unit,
+    Island { comp: String, props: String, kids: Vec<Node> },
+    IslandChildren { kids: Vec<Node> },
 }
 
 impl Node {
@@ -111,6 +115,16 @@ pub fn encode(nodes: &[Node]) -> String {
             }
             Node::Prim { ty, s } => o.push_str(&format!("P{ty}:{};", hx(s))),
             Node::Unit => o.push('Z'),
+            Node::Island { comp, props, kids } => {
+                o.push_str(&format!("I{};{};", hx(comp), hx(props)));
+                o.push_str(&encode(kids));
+                o.push('<');
+            }
+            Node::IslandChildren { kids } => {
+                o.push('J');
+                o.push_str(&encode(kids));
+                o.push('<');
+            }
             Node::Cont { kind, ity, kids } => {
                 o.push(*kind);
                 o.push(*ity);
@@ -214,6 +228,16 @@ impl<'a> D<'a> {
                 b't' => out.push(Node::Text { ty: self.tyname()?, s: self.hex()? }),
                 b'P' => out.push(Node::Prim { ty: self.tyname()?, s: self.hex()? }),
                 b'Z' => out.push(Node::Unit),
+                b'I' => {
+                    let comp = self.hex()?;
+                    let props = self.hex()?;
+                    let kids = self.nodes(false)?;
+                    out.push(Node::Island { comp, props, kids });
+                }
+                b'J' => {
+                    let kids = self.nodes(false)?;
+                    out.push(Node::IslandChildren { kids });
+                }
                 k if CONT_KINDS.as_bytes().contains(&k) => {
                     let ity = *self.s.get(self.i)? as char;
                     self.i += 1;
@@ -381,6 +405,22 @@ fn exp(nodes: &[Node], prev_text: &mut bool, out: &mut Vec<Tree>) {
             Node::Unit => {
                 out.push(Tree::Comment(String::new()));
                 *prev_text = false;
+            }
+            // islands are elements written by hand; the sibling position is handed through to the
+            // view inside and back out, so a marker can be the first child
+            Node::Island { comp, props, kids } => {
+                let mut attrs = vec![("data-component".to_string(), comp.clone())];
+                if !props.is_empty() {
+                    attrs.push(("data-props".to_string(), props.clone()));
+                }
+                let mut inner = vec![];
+                exp(kids, prev_text, &mut inner);
+                out.push(Tree::Elem { tag: "leptos-island".into(), attrs, kids: inner });
+            }
+            Node::IslandChildren { kids } => {
+                let mut inner = vec![];
+                exp(kids, prev_text, &mut inner);
+                out.push(Tree::Elem { tag: "leptos-children".into(), attrs: vec![], kids: inner });
             }
             Node::Cont { kind, kids, .. } => match kind {
                 // `None` is a placeholder comment, a `Vec` ends with a marker comment
